@@ -1048,3 +1048,71 @@ func H_C17_slice() {
 	}
 	vAssert("slice:bytes==ascending-copy-model", ok)
 }
+
+// ---------------------------------------------------------------------
+// H17.4 aliasing: two views over one buffer and the []byte a Go embedder obtains by Export() see the same bytes
+
+var vC17AliasKinds = []int{vkUint8, vkInt16, vkUint32, vkInt8, vkUint16, vkInt32, vkUint8Clamped}
+
+func H_C17_alias() {
+	r := vRuntime()
+	L := vBound("L")
+	nk := len(vC17AliasKinds)
+	if b := vBound("KINDS"); b > 0 && b < nk {
+		nk = b
+	}
+	ka := vC17AliasKinds[vChoice("kindA", nk)]
+	kb := vC17AliasKinds[vChoice("kindB", nk)]
+	sa, sb := vElemSize(ka), vElemSize(kb)
+	orig := vNondetBytes("data", L)
+	ab := r._newArrayBuffer(nil, nil)
+	ab.data = orig
+	A := vC17View("A", r, ka, ab, L)
+	B := vC17View("B", r, kb, ab, L)
+	exp, isAB := ab.export(nil).(ArrayBuffer)
+	vAssert("alias:export-is-ArrayBuffer", isAB)
+	if !isAB {
+		return
+	}
+	goBytes := exp.Bytes()
+	vAssert("alias:export-same-backing-array", len(goBytes) == L && (L == 0 || &goBytes[0] == &orig[0]))
+	// 1. a store through view A ...
+	idx := vNondetInt("idx")
+	val := vC17NumArg("val", nil)
+	before := append([]byte{}, orig...)
+	A._putIdx(idx, val)
+	valid := idx >= 0 && idx < A.length
+	raw := refC17RawInt(ka, val.i)
+	lo := (A.offset + idx) * sa
+	ok := true
+	for p := 0; p < L; p++ {
+		expect := refC17Sel(before[p], valid && p >= lo && p < lo+sa, raw, p-lo)
+		if goBytes[p] != expect {
+			ok = false
+		}
+	}
+	vAssert("alias:store-visible-in-exported-bytes", ok)
+	// 2. ... and a store by Go code into the exported slice are both seen by view B
+	gp := vNondetInt("go.pos")
+	gv := vNondetUint8("go.val")
+	if gp >= 0 && gp < L {
+		goBytes[gp] = gv
+	}
+	j := vNondetInt("j")
+	got := B._getIdx(j)
+	if j >= 0 && j < B.length {
+		vAssert("alias:B-defined", got != nil)
+		if got != nil {
+			vAssert("alias:B-reads-current-bytes", got.ToInteger() == refC17ElemInt(kb, vC17RawPick(orig, (B.offset+j)*sb, sb)))
+		}
+	} else {
+		vAssert("alias:B-out-of-range-undefined", got == nil)
+	}
+	// 3. after Detach() the embedder's slice is no longer reachable from script
+	snap := append([]byte{}, orig...)
+	vAssert("alias:detach", exp.Detach() && exp.Detached() && exp.Bytes() == nil && !exp.Detach())
+	val2 := vC17NumArg("val2", nil)
+	A._putIdx(idx, val2)
+	vAssert("alias:no-read-after-detach", A._getIdx(idx) == nil && B._getIdx(j) == nil)
+	vAssert("alias:no-write-after-detach", vC17Unchanged(orig, snap))
+}
